@@ -21,7 +21,7 @@ APP_REQS = ["scan", "close", "execute", "fix", "compromise"]
 SVC_EVS = ["start", "stop", "pause", "resume", "restart", "disable", "enable", "scan", "fix", "compromise", "tick", "send"]
 APP_EVS = ["run", "close", "install", "scan", "fix", "compromise", "tick", "send"]
 NODE_KINDS = ["computer", "computer", "computer", "server", "router", "switch", "firewall"]
-HEALTHS = ["GOOD", "GOOD", "GOOD", "UNUSED", "COMPROMISED", "OVERWHELMED"]
+HEALTHS = ["GOOD", "GOOD", "GOOD", "UNUSED", "COMPROMISED", "OVERWHELMED", "FIXING"]
 PORT_POOL = [0, 21, 22, 53, 80, 123, 219, 5432, 8080, 443]
 
 _LOADED = False
